@@ -1,4 +1,5 @@
 pub mod cidv;
 pub mod cidx;
+pub mod pathkey;
 pub mod verify;
 pub mod wf;
